@@ -174,6 +174,43 @@ def write_range_is_pos_plus_len(fa, b, s):
     return ok and pc.after_len_test(fa, b, s)
 
 
+def after_fitting_free_region(taker):
+    """The enclosing function is called only from Storage::enlarge_value, on the Some edge of
+    `self.records.<taker>(.., <growth / new_size>)`: an existing free region covers the requested size."""
+    def req(fa, b, s):
+        me = common.norm(b.root or b.npath)
+        cs = [(cb, j, t) for cb, j, t in common.callers_of(fa, me, "agdb") if "::tests::" not in cb.path]
+        if not cs:
+            return False
+        for cb, j, t in cs:
+            if not common.norm(cb.root or cb.npath).endswith("Storage::enlarge_value"):
+                return False
+            ok = False
+            for i, tt in cfg.calls(cb):
+                if not (cfg.callee(tt) or "").endswith("StorageRecords::" + taker):
+                    continue
+                size = tt["a"][-1]
+                if taker == "take_free" and pc._root(cb, size) != pc._root(cb, t["a"][2]):
+                    continue            # take_free(new_size): the very new_size handed to the callee
+                if taker == "take_free_after":
+                    subs = [d[2] for d in cfg.defs(cb).get(pc._root(cb, size), []) if d[0] == "assign" and d[2]["k"] == "bin"]
+                    if not (len(subs) == 1 and subs[0]["op"].startswith("Sub") and
+                            pc._root(cb, subs[0]["a"]) == pc._root(cb, t["a"][2])):
+                        continue        # take_free_after(end, new_size - record.size)
+                for k, bl in enumerate(cb.blocks):
+                    t2 = bl["term"]
+                    pl = cfg.op_place(t2["d"]) if t2["k"] == "switch" else None
+                    ds = cfg.defs(cb).get(pl[0], []) if pl else []
+                    if ds and ds[0][0] == "assign" and ds[0][2]["k"] == "discr" and ds[0][2]["p"][0] == tt["d"][0]:
+                        for v, tb in t2["ts"]:
+                            if v == 1 and cfg.find_path(cb, [0], [j], removed_edges=[(k, tb)]) is None:
+                                ok = True
+            if not ok:
+                return False
+        return True
+    return req
+
+
 RECORDS = "agdb::storage::storage_records::StorageRecords"
 RECORDS_WRITERS = {"new_record", "set_record", "remove_index", "set_pos", "set_size"}
 SHRINKING = ("std::vec::Vec::truncate", "std::vec::Vec::pop", "std::vec::Vec::clear", "std::vec::Vec::remove",
@@ -381,6 +418,13 @@ JUSTIFIED = {
     "agdb::storage::Storage::read_record|index|[u8][RangeFrom]":
         ("bytes[8..] after u64::deserialize(&bytes)? succeeded, i.e. bytes.len() >= 8 = index.serialized_size()",
          pc.after_decode),
+    "agdb::storage::Storage::enlarge_in_place|alloc|from_elem":
+        ("only reached when take_free_after found a free region right behind the record that covers the growth, so "
+         "new_size - old_size <= size of an existing free region + 16 <= data length",
+         after_fitting_free_region("take_free_after")),
+    "agdb::storage::Storage::enlarge_move_to|alloc|vec_resize":
+        ("only reached when take_free(new_size) found an existing free region of at least new_size bytes, so new_size <= "
+         "data length", after_fitting_free_region("take_free")),
     # ---- StorageRecords (private `records`; invariant: records[0] exists, every .index < records.len())
     S + "is_valid|index|Vec[usize]":
         ("record is an element of self.records and every stored .index is < records.len(): set_record stores index i at "
